@@ -189,13 +189,18 @@ func evalCase(c *hx.Ctx, or *hx.Oracle, r *hx.RNG, tc trieCase, sweep bool) []ve
 				act := fhex(&av)
 				kb := keyBits(&k2, 251)
 				var g, m string
+				strictRefuses := false
 				if impl == "trie2" {
 					g = verify2Go(b.root, k2, toTrie2(tp.Set), hf)
 					m = verifyModel(or, "v2", b.root, kb, tp.Set, hf)
 					// theorem C10_tamper_rejected on the strict and the independent verifier
 					for _, mk := range []string{"v2s", "vw"} {
-						if x := verifyModel(or, mk, b.root, kb, tp.Set, hf); !notForged(x, act) {
+						x := verifyModel(or, mk, b.root, kb, tp.Set, hf)
+						if !notForged(x, act) {
 							fail("model-verifier-forged:"+mk, fmt.Sprintf("%s: %s actual %s", tp.Kind, x, act), true, tp)
+						}
+						if mk == "v2s" && !strings.HasPrefix(x, "ok ") {
+							strictRefuses = true
 						}
 					}
 				} else {
@@ -211,6 +216,12 @@ func evalCase(c *hx.Ctx, or *hx.Oracle, r *hx.RNG, tc trieCase, sweep bool) []ve
 				}
 				if !notForged(g, act) {
 					kind := strings.TrimSuffix(strings.TrimSuffix(tp.Kind, ":stale-key"), ":rekeyed")
+					if impl == "trie2" && strictRefuses && g == m {
+						// whatever the alteration was called: the faithful model accepts it too and the
+						// strict verifier refuses it, i.e. the set holds a node with a ValueNode-tagged child
+						// above leaf depth (C10_verify2_value_tag_refuted) — the registered class
+						kind = "retag-child"
+					}
 					fail(impl+":forged:"+kind, fmt.Sprintf("root %s key %s: altered proof (%s %s) verifies to %s, actual value %s",
 						fhex(&b.root), tp.Key, tp.Kind, tp.What, g, act),
 						false, map[string]any{"impl": impl, "hash": tc.Hash, "root": fhex(&b.root), "tampered": tp, "trie": tc, "actual": act})
